@@ -1,4 +1,4 @@
 SPECIFICATION Spec
-CONSTANTS DestructFirst = FALSE  StopMayHappen = TRUE
+CONSTANTS Variant = "who_late"
 INVARIANTS NoUseAfterFree
 CHECK_DEADLOCK FALSE
